@@ -129,6 +129,20 @@ def bounded_purity(tier, seed):
         got = run_native(lambda: select(None, expr, parser=PARSERS['3.1'], item=1))
         if got != ('return', want):
             fails.append({'key': f'scope {expr}', 'what': f'`{expr}` = {got!r}, lexical scoping gives {want!r}'})
+    # a later binding of the same name (a new scope) changes neither what an existing function item sees nor the caller's variable map
+    for expr, want in (('let $x := 1, $f := function() { $x }, $x := 2 return ($f(), $x)', [1, 2]), ('let $f := function($y) { $x + $y }, $x := 100 return ($f(1), $x)', [2, 100]),
+                       ('let $f := function($y) { $x * $y }, $x := 100 return (for $k in (1, 2, 3) return $f($k))', [1, 2, 3]),
+                       ('for $x in (5, 6) return (let $g := function() { $x } return (for $x in (7) return $g()))', [5, 6]),
+                       ('(let $x := 9 return $x, $x)', [9, 1]), ('(for $x in (8, 9) return $x, $x)', [8, 9, 1]), ('((some $x in (3) satisfies $x = 3), $x)', [True, 1]),
+                       ('(function($x) { $x }(4), $x)', [4, 1]), ('let $x := $x + 1, $x := $x + 1 return $x', 3)):
+        for version in ('3.0', '3.1'):
+            n += 1
+            seen.add(('outer variable', expr))
+            caller = {'x': 1}
+            got = run_native(lambda: select(None, expr, parser=PARSERS[version], item=1, variables=caller))
+            if got != ('return', want) or caller != {'x': 1}:
+                fails.append({'key': f'outer variable {expr}', 'what': f'XPath {version}: `{expr}` with $x := 1 from the caller = {got!r} (lexical scoping: {want!r}); the '
+                              f"caller's variable map afterwards: {caller!r}"})
     # the four entry points build the same initial focus from their arguments
     root = ET.XML(docs[0])
     for expr, want in (('position()', [2]), ('last()', [5]), ('(position(), last())', [2, 5])):
